@@ -78,9 +78,6 @@ Fixpoint mismatches_from (valid_ids meta_ids : list string) (dir : string) (k : 
   end.
 Definition mismatches valid_ids meta_ids dir := mismatches_from valid_ids meta_ids dir 0.
 
-(* the per-name premise of the rename / delete theorems, evaluated on the names the generator calls plain *)
-Definition names_ok (dir : string) (ns : list string) : list bool := map (name_okb dir) ns.
-
 (* save-crash: what the model leaves after a kill before primitive step number n of UpdateSpec
    (0 = nothing done), as seen in the victim file: 0 old text, 1 empty, 2 new text, 3 something else;
    second component: the DAG files List shows in that crash state *)
